@@ -73,6 +73,8 @@ func rulesC18(c *Ctx, r *Report) {
 		ruleStaleElem(c, r, tr.AnonFuncs[0])
 	}
 	rulesOpenedHandle(c, r)
+	rulesTrieKeys(c, r)
+	rulesCanonical(c, r)
 	_ = lits
 }
 
@@ -189,7 +191,9 @@ func rulesYDPkg(c *Ctx, r *Report, rel string) {
 		n++
 		r.analysed(y.f.name)
 		y.ruleYD1(c, r, "YD1")
-		y.ruleYD2(c, r, "YD2", nil)
+		if yd2Formats[rel] {
+			y.ruleYD2(c, r, "YD2", nil)
+		}
 	}
 	r.floor("YD1-"+rel, n, 2, "iterator functions of "+rel)
 }
